@@ -416,6 +416,9 @@ func getAttrs(attrs attribute.Set) ([]string, []string) {
 		for itr.Next() {
 			kv := itr.Attribute()
 			key := model.EscapeName(string(kv.Key), model.NameEscapingScheme)
+			// EscapeName escapes to the character set of metric names, which
+			// includes ':'; label names must not contain it.
+			key = strings.ReplaceAll(key, ":", "_")
 			if _, ok := keysMap[key]; !ok {
 				keysMap[key] = []string{kv.Value.Emit()}
 			} else {
